@@ -175,6 +175,15 @@ class Exporter:
             else:
                 kind = None
                 sv = [_attr_lit(val)]
+                from xdsl.dialects.builtin import DenseIntOrFPElementsAttr, MemRefType
+                if isinstance(val, DenseIntOrFPElementsAttr) and isinstance(op.results[0].type, MemRefType):
+                    # a constant BUFFER: its identity is its logical content (shape + multiset of values), not the byte order of one layout
+                    # (whether re-laid-out bytes hold the logical values at the right positions is judged separately: ObjCheck relayout)
+                    try:
+                        vals = sorted(int(x) for x in val.get_values())
+                    except Exception:
+                        vals = []
+                    sv = [f"dense-buffer:{list(op.results[0].type.get_shape())}:{op.results[0].type.element_type}:{vals}"]
         elif kind == "cmpi":
             iv = [op.properties["predicate"].value.data]
         elif kind == "cast":
